@@ -428,6 +428,9 @@ func (e *entFn) barrierVersion(fld *types.Var, s site) string {
 			return
 		}
 		if n.End() <= s.pos && n.Pos() > latest {
+			if e.cannotFlowTo(n, s.pos) {
+				return // inside a branch that ends in return/panic and does not contain the site
+			}
 			latest = n.Pos()
 		}
 	}
@@ -459,10 +462,124 @@ func (e *entFn) barrierVersion(fld *types.Var, s site) string {
 	return fmt.Sprintf("%d/%d", loop, latest)
 }
 
+// cannotFlowTo: n lies in a statement list (if/else body, case body) that ends in a return or a panic and does not
+// contain pos: control that executes n never reaches pos within this activation of the function.
+func (e *entFn) cannotFlowTo(n ast.Node, pos token.Pos) bool {
+	for p := e.w.parent[n]; p != nil; p = e.w.parent[p] {
+		var list []ast.Stmt
+		switch b := p.(type) {
+		case *ast.BlockStmt:
+			list = b.List
+			// only bodies of if/else (not loop bodies, not function bodies)
+			switch e.w.parent[b].(type) {
+			case *ast.IfStmt:
+			default:
+				list = nil
+			}
+		case *ast.CaseClause:
+			list = b.Body
+		case *ast.CommClause:
+			list = b.Body
+		case *ast.FuncLit, *ast.FuncDecl:
+			return false
+		}
+		if len(list) == 0 {
+			continue
+		}
+		if p.Pos() <= pos && pos < p.End() {
+			return false // the site is inside this list too: no conclusion here or further up
+		}
+		if branchesOut(list) {
+			continue // a break/continue/goto can leave the list before its end
+		}
+		switch last := list[len(list)-1].(type) {
+		case *ast.ReturnStmt:
+			return true
+		case *ast.ExprStmt:
+			if c, ok := last.X.(*ast.CallExpr); ok && isBuiltin(e.info, c, "panic") {
+				return true
+			}
+		}
+	}
+	return false
+}
+
+// branchesOut: a break, continue or goto in the list may transfer control out of it.
+func branchesOut(list []ast.Stmt) bool {
+	out := false
+	var walk func(n ast.Node, inLoop, inBreakable bool)
+	walk = func(n ast.Node, inLoop, inBreakable bool) {
+		ast.Inspect(n, func(q ast.Node) bool {
+			if out || q == nil {
+				return false
+			}
+			switch x := q.(type) {
+			case *ast.FuncLit:
+				return false
+			case *ast.BranchStmt:
+				switch {
+				case x.Tok == token.GOTO, x.Label != nil:
+					out = true
+				case x.Tok == token.BREAK && !inBreakable:
+					out = true
+				case x.Tok == token.CONTINUE && !inLoop:
+					out = true
+				}
+			case *ast.ForStmt:
+				if q != n {
+					walk(x.Body, true, true)
+					return false
+				}
+			case *ast.RangeStmt:
+				if q != n {
+					walk(x.Body, true, true)
+					return false
+				}
+			case *ast.SwitchStmt:
+				if q != n {
+					walk(x.Body, inLoop, true)
+					return false
+				}
+			case *ast.TypeSwitchStmt:
+				if q != n {
+					walk(x.Body, inLoop, true)
+					return false
+				}
+			case *ast.SelectStmt:
+				if q != n {
+					walk(x.Body, inLoop, true)
+					return false
+				}
+			}
+			return true
+		})
+	}
+	for _, s := range list {
+		// a loop or switch that is itself an element of the list contains its own breaks
+		switch x := s.(type) {
+		case *ast.ForStmt:
+			walk(x.Body, true, true)
+		case *ast.RangeStmt:
+			walk(x.Body, true, true)
+		case *ast.SwitchStmt:
+			walk(x.Body, false, true)
+		case *ast.TypeSwitchStmt:
+			walk(x.Body, false, true)
+		case *ast.SelectStmt:
+			walk(x.Body, false, true)
+		default:
+			walk(s, false, false)
+		}
+	}
+	return out
+}
+
 type keyCtx struct {
 	e    *entFn
 	s    *site // nil: every identifier is versioned at its own position
 	objs *[]types.Object
+	// depth of alias resolution (locals standing for access paths)
+	aliasDepth int
 }
 
 func (k keyCtx) siteOf(n ast.Node) site {
@@ -486,6 +603,37 @@ func (k keyCtx) key(x ast.Expr) string {
 			obj = e.info.Defs[x]
 		}
 		if v, ok := obj.(*types.Var); ok && !v.IsField() && v.Pkg() != nil && v.Parent() != v.Pkg().Scope() {
+			// a local assigned exactly once from a call-free access path (b := v.Boolean; n := *v.Number) denotes the
+			// value that path had at the assignment: it is keyed as that path, versioned there, so that a test of the
+			// local is a test of the path and conversely
+			if k.aliasDepth < 3 && !e.addrOf[obj] {
+				if as := e.assigns[obj]; len(as) == 1 {
+					var rhs ast.Expr
+					var at ast.Node
+					switch a := as[0].(type) {
+					case *ast.AssignStmt:
+						if len(a.Lhs) == len(a.Rhs) && (a.Tok == token.DEFINE || a.Tok == token.ASSIGN) {
+							for i, l := range a.Lhs {
+								if id := identOf(l); id != nil && (e.info.Defs[id] == obj || e.info.Uses[id] == obj) {
+									rhs, at = a.Rhs[i], a
+								}
+							}
+						}
+					case *ast.ValueSpec:
+						if len(a.Values) == len(a.Names) {
+							for i, id := range a.Names {
+								if e.info.Defs[id] == obj {
+									rhs, at = a.Values[i], a
+								}
+							}
+						}
+					}
+					if rhs != nil && isAccessPath(e.info, rhs) {
+						ka := keyCtx{e: e, s: &site{pos: at.Pos(), anc: at}, objs: k.objs, aliasDepth: k.aliasDepth + 1}
+						return ka.key(rhs)
+					}
+				}
+			}
 			if k.objs != nil {
 				*k.objs = append(*k.objs, obj)
 			}
@@ -544,6 +692,29 @@ func (k keyCtx) key(x ast.Expr) string {
 func identOf(e ast.Expr) *ast.Ident {
 	id, _ := unparen(e).(*ast.Ident)
 	return id
+}
+
+// isAccessPath: a selector / dereference / index path rooted at a variable, with at least one step.
+func isAccessPath(info *types.Info, e ast.Expr) bool {
+	steps := 0
+	for {
+		switch x := unparen(e).(type) {
+		case *ast.SelectorExpr:
+			if sel, ok := info.Selections[x]; !ok || sel.Kind() != types.FieldVal {
+				return false
+			}
+			e = x.X
+			steps++
+		case *ast.StarExpr:
+			e = x.X
+			steps++
+		case *ast.Ident:
+			v, ok := info.Uses[x].(*types.Var)
+			return ok && steps > 0 && !v.IsField()
+		default:
+			return false
+		}
+	}
 }
 
 // ---------- integer normal forms (ring arithmetic, exact under wrap-around) ----------
